@@ -30,6 +30,9 @@ EXTENDS CfgUpdateP, Sequences
 CONSTANTS Paths,      \* every path of the configuration tree the model knows
           Cat,        \* Paths -> 1..6 : flows, quotas, path params, gateway config, metrics config (= save order),
                       \*                6 = the gateway's built-in default metrics file (outside Backup/Restore)
+          Inert,      \* files in a sub-directory of a directory the engine reads at the top level only (flows, quotas):
+                      \* part of the tree, Backup / Restore / clean-up see them, no engine ever loads them
+          Unseen,     \* (deviation, {} in the code) files Backup's snapshot and Restore's comparison do not look at
           Txns,       \* probe transaction ids
           RestoreWrongDirection, PublishBeforeInit, ContinueAfter405, ApplyNoBackup, NoReloadAfterRestore,
           MetricsToDefaultPath, StaleBackup,
@@ -41,11 +44,12 @@ VARIABLES c, pc, nxt, sigc, after, round, disk, backup, active, todo, todoR, sub
 ivars == <<c, pc, nxt, sigc, after, round, disk, backup, active, todo, todoR, sub, wp, hapLeft,
            cnt, fired, faultPending, open, closed, p, viol>>
 
-Flows == {q \in Paths : Cat[q] = 1}
+Flows == {q \in Paths : Cat[q] = 1 /\ q \notin Inert}
 Gw == CHOOSE q \in Paths : Cat[q] = 4
 Mx == CHOOSE q \in Paths : Cat[q] = 5
 Dx == CHOOSE q \in Paths : Cat[q] = 6          \* the built-in default metrics file: read when the user's file is absent
-Managed == {q \in Paths : Cat[q] <= 5}         \* what Backup / Restore / CleanAll look at
+Managed == {q \in Paths : Cat[q] <= 5}         \* what Backup / Restore / CleanAll look at (directories are walked recursively)
+Snap == Managed \ Unseen
 Points == {"fs.store", "fs.remove", "hdm.initialize", "haproxy"}
 
 Total(d) == [q \in Paths |-> At(d, q)]
@@ -259,10 +263,10 @@ MetricsOK  == /\ pc = "metrics" /\ EffMetrics # "mbad"
 RestoreBegin ==
     /\ pc = "restore" /\ Quiet /\ Step("restoring")
     /\ IF RestoreWrongDirection
-       THEN /\ todo' = {q \in Managed : disk[q] # "none" /\ disk[q] # backup[q]}    \* rewrites what is there now
+       THEN /\ todo' = {q \in Snap : disk[q] # "none" /\ disk[q] # backup[q]}    \* rewrites what is there now
             /\ todoR' = {}
-       ELSE /\ todo' = {q \in Managed : backup[q] # "none" /\ disk[q] # backup[q]}  \* changed or removed files come back
-            /\ todoR' = {q \in Managed : backup[q] = "none" /\ disk[q] # "none"}    \* added files go away
+       ELSE /\ todo' = {q \in Snap : backup[q] # "none" /\ disk[q] # backup[q]}  \* changed or removed files come back
+            /\ todoR' = {q \in Snap : backup[q] = "none" /\ disk[q] # "none"}    \* added files go away
     /\ UNCHANGED <<c, after, round, disk, backup, active, sub, wp, hapLeft>> /\ NoHit /\ NoObs
 AfterRestore == IF after = "reload2" /\ ~NoReloadAfterRestore
                 THEN pc' = "validate" /\ round' = 2 ELSE pc' = "reply" /\ round' = round
